@@ -9,6 +9,8 @@ import Proofs.TensorWf
 import Proofs.Scatter
 import Proofs.MaxpoolWindow
 import Proofs.Rechunk
+import Proofs.Walk
+import Props.C17
 
 /-!
 # C02 — each layer's forward pass computes its defining operator
@@ -336,5 +338,30 @@ theorem entry_flat_eq_spatial {α : Type} [Scalar α] (t : V3 α) (c h w : ℕ) 
     (hc : 0 < c) (hh : 0 < h) (hw : 0 < w) (s1 s2 : Shape) :
     entry (⟨s1, .single (L.flatten3 t)⟩ : Tensor α) (.triple c h w) = entry (⟨s2, .triple t⟩ : Tensor α) (.triple c h w) :=
   Rechunk.entry_flat_eq_spatial t c h w ht hc hh hw s1 s2
+
+
+/-! ### the whole network: `predict` is the composition of the layers -/
+
+/-- without skip and loop connections `predict` is the value threaded through the layer sequence:
+    `predict (l₁ ++ l₂) = predict l₂ ∘ predict l₁` by `C17.rangeFinal_append`, the empty network is the
+    identity, a single layer is that layer's `forward` output -/
+theorem predict_is_composition {α : Type} [Scalar α] (n : Network α) (hc : n.connect = []) (hl : n.loopbacks = [])
+    (x : Tensor α) : n.predict x = C17.rangeFinal n.layers x := by
+  unfold Network.predict
+  rw [Walk.forward_eq_runRange n hc hl x]
+  unfold Network.runRange C17.rangeFinal C17.finalOf
+  cases hf : n.layers.foldl Network.rangeStep (.ok ([], [], [], x)) with
+  | error e => rfl
+  | ok st =>
+    obtain ⟨p, q, r, y⟩ := st
+    simp only []
+    by_cases hne : n.layers = []
+    · rw [hne] at hf
+      simp only [List.foldl_nil, Except.ok.injEq, Prod.mk.injEq] at hf
+      obtain ⟨_, hq, _, hy⟩ := hf
+      subst hq; subst hy; rfl
+    · have := (LoopSpec.rangeFold_spec n.layers _ _ _ _ _ _ _ _ hf).2 hne
+      rw [List.getLast?_cons, this]
+      rfl
 
 end C02
